@@ -409,8 +409,12 @@ const FUND_MOVING: &[&str] = &[
     "swap", "swap_v2", "two_hop_swap", "two_hop_swap_v2", "increase_liquidity", "increase_liquidity_v2", "decrease_liquidity", "decrease_liquidity_v2",
     "increase_liquidity_by_token_amounts_v2", "reposition_liquidity_v2", "collect_fees", "collect_fees_v2", "collect_reward", "collect_reward_v2",
     "collect_protocol_fees", "collect_protocol_fees_v2", "update_fees_and_rewards", "set_reward_emissions", "set_reward_emissions_v2", "initialize_reward", "initialize_reward_v2",
-    "set_adaptive_fee_constants", "reset_position_range",
+    "set_adaptive_fee_constants", "reset_position_range", "lock_position",
+    "set_fee_rate", "set_protocol_fee_rate", "set_fee_rate_by_delegated_fee_authority", "set_reward_authority", "set_reward_authority_by_super_authority",
 ];
+
+/// instructions whose `whirlpool` slot simply names the pool to act on (another pool there is another legitimate call)
+const POOL_IS_THE_NAME: &[&str] = &["initialize_reward", "initialize_reward_v2", "set_fee_rate_by_delegated_fee_authority", "set_fee_rate", "set_protocol_fee_rate", "set_reward_authority", "set_reward_authority_by_super_authority"];
 
 #[derive(Clone, Debug, PartialEq, Eq)]
 enum Kind {
@@ -516,6 +520,9 @@ impl C15 {
             // initialise-reward names a pool and otherwise only fresh / pool-independent accounts:
             // another pool in that slot is simply another (legitimately) named pool
             if (kind == Kind::Pool || matches!(kind, Kind::Mint(_))) && matches!(name, "initialize_reward" | "initialize_reward_v2") {
+                continue;
+            }
+            if kind == Kind::Pool && POOL_IS_THE_NAME.contains(&name) {
                 continue;
             }
             // forged clone: the very bytes of the right account at another address, owned by a program that is not
